@@ -3,6 +3,7 @@
    with the Python statements it was made from on every run (C13). -/
 import DateutilVerif.Base.Wire
 import DateutilVerif.Generated.RRuleStrKernels
+import DateutilVerif.Ops.RRuleStr
 
 namespace Ops.RRuleStrGen
 open Wire StrPy
@@ -64,6 +65,19 @@ def handle (op : String) (args : List String) : Option String :=
       let a ← parseZone? a
       let b ← parseZone? b
       some (Py.showR showZone (Gen.rrsAttach a b))
+  | "rrsgen.str", [dt, freq, interval, wkst, count, untl, bysetpos, bymonth, bymonthday, byyearday, byeaster, byweekno,
+                   byweekday, byhour, byminute, bysecond, fwd] => do
+      -- the same request as `rrs.str`, answered by the SOURCE TRANSLATION of `rrule.__str__`
+      let x : RRuleStr.StrIn := {
+        fwd := ← parseInt? fwd,
+        dtstart := ← Ops.RRuleStr.six? dt, freq := ← freq.toNat?, interval := ← parseInt? interval, wkst := ← parseInt? wkst,
+        count := ← parseOptInt? count, untilV := ← Ops.RRuleStr.six? untl,
+        orig := { bysetpos := ← Ops.RRuleStr.optList? bysetpos, bymonth := ← Ops.RRuleStr.optList? bymonth,
+                  bymonthday := ← Ops.RRuleStr.optList? bymonthday, byyearday := ← Ops.RRuleStr.optList? byyearday,
+                  byeaster := ← Ops.RRuleStr.optList? byeaster, byweekno := ← Ops.RRuleStr.optList? byweekno,
+                  byweekday := ← Ops.RRuleStr.parseWDays? byweekday, byhour := ← Ops.RRuleStr.optList? byhour,
+                  byminute := ← Ops.RRuleStr.optList? byminute, bysecond := ← Ops.RRuleStr.optList? bysecond } }
+      some ("ok " ++ hexL (Gen.rruleStr x))
   | _, _ => none
 
 end Ops.RRuleStrGen
